@@ -44,7 +44,13 @@ def run_path(hname, params, prefix, validate=False):
     rec = dict(status='ok')
     try:
         try:
-            h(ctx, params)
+            try:
+                h(ctx, params)
+            except z3.Z3Exception as e:
+                if 'cast to concrete Boolean' in str(e):
+                    where = traceback.format_exc().strip().split('\n')[-3].strip()[:100]
+                    raise Unsupported('a symbolic value reached a place where the encoder needs a concrete one: ' + where)
+                raise
         except implmod.ImplPanic as e:
             rec['status'] = 'panic'
             rec['msg'] = str(e)[:200]
